@@ -444,13 +444,17 @@ func genFB(o hx.Opts, emit func(string)) {
 	}
 	// random: long messages (up to 70000 > maxHandshake), partitions, overlap, duplicates, hostile pieces
 	r := hx.NewRand(o.Seed)
-	cnt := 150 * o.Scale
+	cnt := 100 * o.Scale
 	if thorough {
-		cnt = 6000 * o.Scale
+		cnt = 3000 * o.Scale
 	}
 	for i := 0; i < cnt; i++ {
 		var n int
-		switch x := i % 50; {
+		x := i % 50
+		if i >= 100 && !thorough && (x == 11 || x == 23 || x == 37) {
+			x = 1 // the number of very long cases does not grow with -scale in the quick tier
+		}
+		switch {
 		case x == 11:
 			n = 60000 + r.Intn(10001) // beyond maxHandshake too; few, the model's list bitmap is slow here
 		case x == 23 || x == 37:
@@ -586,16 +590,16 @@ func genRX(o hx.Opts, emit func(string)) {
 	}
 	// random streams
 	r := hx.NewRand(o.Seed + 7)
-	cnt := 400 * o.Scale
+	cnt := 300 * o.Scale
 	if thorough {
-		cnt = 20000 * o.Scale
+		cnt = 10000 * o.Scale
 	}
 	for i := 0; i < cnt; i++ {
 		n := 1 + r.Intn(60)
 		if r.Chance(30) {
 			n = 60 + r.Intn(3000)
 		}
-		long := i%150 == 7 // a few very long messages (the model's list-based bitmap is slow on them)
+		long := i%150 == 7 && (thorough || i < 300) // a few very long messages (the model's list-based bitmap is slow on them)
 		if long {
 			n = 60000 + r.Intn(5537)
 		}
@@ -711,13 +715,13 @@ func genTX(o hx.Opts, emit func(string)) {
 		}
 	}
 	r := hx.NewRand(o.Seed + 13)
-	cnt := 150 * o.Scale
+	cnt := 100 * o.Scale
 	if thorough {
-		cnt = 5000 * o.Scale
+		cnt = 3000 * o.Scale
 	}
 	for i := 0; i < cnt; i++ {
 		n := 1 + r.Intn(4000)
-		if i%50 == 7 { // few: the model's list-based bitmap is slow on very long messages
+		if i%50 == 7 && (thorough || i < 100) { // few: the model's list-based bitmap is slow on very long messages
 			n = 4000 + r.Intn(62000)
 		}
 		p := 26 + r.Intn(1600)
